@@ -14,10 +14,10 @@
 EXTENDS Naturals, Sequences, FiniteSets, TLC, Json
 
 CONSTANTS
-    SenderOps,    \* [sender -> sequence of ops]; op \in {"send", "try", "block0", "blockInf", "blockTokio", "weCb"}
+    SenderOps,    \* [sender -> sequence of ops]; op \in {"send", "try", "block0", "blockInf", "blockTokio", "weCb", "weCbPanic"}
                   \*  blockTokio: the async tokio::send without timeout (same steps as blockInf)
                   \*  weCb: a raw when_empty with an observed callback (at most one per sender)
-    FlusherOps,   \* [flusher -> "flush0" | "flushInf" | "flushTokio" | "cbPanic" | "cbPark"]
+    FlusherOps,   \* [flusher -> "flush0" | "flushInf" | "flushInfSame" | "flushTokio" | "cbPanic" | "cbPark"]
                   \*  flushTokio: the async tokio::flush (no timeout); cbPark: a raw when_flushed whose
                   \*  callback, when the receiver runs it, blocks until the environment lets it return
     Cap,          \* max_capacity (>= 1)
@@ -206,7 +206,7 @@ WhenEmpty(s) ==
 
 \* a raw Sender::when_empty with an observed callback; the caller does not wait for it
 WhenEmptyCb(s) ==
-    /\ senderAlive /\ spc[s] = "op" /\ Op(s) = "weCb"
+    /\ senderAlive /\ spc[s] = "op" /\ Op(s) \in {"weCb", "weCbPanic"}
     /\ IF pending = <<>>
        THEN /\ ecb' = [ecb EXCEPT ![s] = "fired"] /\ pendTake' = pendTake
        ELSE /\ pendTake' = Append(pendTake, <<"cb", s>>) /\ ecb' = [ecb EXCEPT ![s] = "reg"]
@@ -238,8 +238,14 @@ SendWake(s) ==
     /\ UNCHANGED ecb
 
 \* Sender::when_flushed
+\* "flushInfSame" is a second blocking flush issued by the thread that ran the "flush0" flusher,
+\* after that call returned (whatever a blocking flush keeps per thread is then reused)
+SameThreadDone(f) ==
+    FlusherOps[f] = "flushInfSame" =>
+        \A p \in Flushers : FlusherOps[p] = "flush0" => fpc[p] = "done"
 WhenFlushed(f) ==
     /\ senderAlive /\ fpc[f] = "start"
+    /\ SameThreadDone(f)
     /\ LET imm == ~isInBatch /\ (pending = <<>> \/ ~isOpen)
        IN /\ IF imm
              THEN /\ ffired' = [ffired EXCEPT ![f] = IF rpc = "dead" THEN "yesDead" ELSE "yes"]
@@ -257,7 +263,7 @@ WhenFlushed(f) ==
 \* blocking_flush returning: timeout 0 reports the flag as it is, no timeout waits for it
 FlushRet(f) ==
     /\ fpc[f] = "wait"
-    /\ FlusherOps[f] \in {"flushInf", "flushTokio"} => ffired[f] # "no"
+    /\ FlusherOps[f] \in {"flushInf", "flushInfSame", "flushTokio"} => ffired[f] # "no"
     /\ fret' = [fret EXCEPT ![f] = IF ffired[f] # "no" THEN "true" ELSE "false"]
     /\ fpc' = [fpc EXCEPT ![f] = "done"]
     /\ Log(f, "FlushRet", [ret |-> ffired[f] # "no"])
